@@ -763,3 +763,82 @@ def linkkeep(pid):
 
 def wildname(p):
     return re.sub(r"(var|param):\w+", r"\1:*", p)[:60]
+
+
+# ---------------------------------------------------------------------------
+def chainpos(pid):
+    """R-CHAINPOS: Chain / MiniChain / Sector keep `position <= length`; their read and write index the sector list
+    with position / sector_len and subtract position from length without a test of their own (R-SINK entries of
+    class internal-invariant).  The invariant is established where the position is set: every store to the position
+    field in a seek implementation is dominated by `new position <= len()`."""
+    def run(ctx):
+        res = RuleResult("R-CHAINPOS(%s)" % pid, "every position stored by Chain::seek / MiniChain::seek / Sector::seek is dominated by a comparison `position <= len(self)`")
+        n = 0
+        for f in ctx.fx.fns.values():
+            if f.d.get("impl_trait") != "std::io::Seek" or f.d["name"] != "seek" or not re.search(r"internal::(chain|minichain|sector)::", f.path):
+                continue
+            v = view(ctx, f)
+            pr = Prov(f)
+            g = _guards(ctx, f)
+            for fld in ("offset_from_start", "offset_within_sector"):
+                for node in v.stores_to_field(fld):
+                    n += 1
+                    st = f.blocks[node[1]]["stmts"][node[2]]
+                    val = pr._def((node[1], node[2], st), 0, ())
+                    atoms = g.atoms_at(node)
+                    ok = any(re.match(r"^\((Le|Lt)\((.*),(Chain|MiniChain|Sector)::len\(param:self\)\)\)$", a) and (val in a or wildname(val) in wildname(a) or re.sub(r"^cast\((.*)\)$", r"\1", val) in a) for a in atoms)
+                    key = "R-CHAINPOS/%s/%s" % (f.path, fld)
+                    if ok:
+                        res.ok({"function": f.path, "position": val[:60], "bounded_by": "len(self)"}, nontrivial=True)
+                    else:
+                        res.fail(Finding(res.rule, key + "/position-not-bounded", "seek stores %s as the position with no dominating `<= len(self)` test: a position past the end makes the next read/write subtract it from the length or index the sector list out of range (panic on a file whose stream length exceeds its chain)" % val[:80], f, st["span"]))
+        res.floor("position stores in seek", n, ctx.table("floors").get("chainpos_sites", 0))
+        return res
+    return run
+
+
+# ---------------------------------------------------------------------------
+def ceil(pid):
+    """R-CEIL: `x / y + 1` as the number of y-sized units needed for x bytes is one too many whenever x is a
+    multiple of y, unless the remainder was tested.  In the chain layer the surplus unit is a sector that is kept
+    with its old contents on shrink (and later exposed by a grow), or counted in the header although it is not
+    in the chain."""
+    def run(ctx):
+        res = RuleResult("R-CEIL(%s)" % pid, "no sector / entry count in the chain, allocator or stream layer is computed as floor(x / y) + 1 without a dominating test of x %% y")
+        n = 0
+        for f in ctx.fx.fns.values():
+            if not re.search(r"internal::(chain|minichain|alloc|minialloc|stream|directory|sector)::", f.path):
+                continue
+            pr = None
+            g = None
+            for bb, blk in enumerate(f.blocks):
+                if blk["cleanup"]:
+                    continue
+                for i, st in enumerate(blk["stmts"]):
+                    if st["s"] != "assign" or st["rv"]["r"] != "binop" or not st["rv"]["op"].startswith("Add"):
+                        continue
+                    if st["span"].get("macros"):
+                        continue
+                    pr = pr or Prov(f)
+                    p = pr._def((bb, i, st), 0, ())
+                    m = re.match(r"^Add\((?:cast\()?Div\((.*)\)\)?,const:1\)$", p) or re.match(r"^Add\(const:1,(?:cast\()?Div\((.*)\)\)?\)$", p)
+                    if not m:
+                        continue
+                    from prov import _split_top
+                    parts = _split_top(m.group(1))
+                    if len(parts) != 2:
+                        continue
+                    n += 1
+                    g = g or _guards(ctx, f)
+                    atoms = g.atoms_at(("s", bb, i))
+                    x, y = parts
+                    tested = any(re.match(r"^\((Ne|Gt|Eq)\(Rem\(%s,%s\),const:0\)\)$" % (re.escape(x), re.escape(y)), a) for a in atoms)
+                    key = "R-CEIL/%s" % f.path
+                    if tested:
+                        res.ok({"function": f.path, "expression": p[:80], "remainder_tested": True}, nontrivial=True)
+                    else:
+                        res.fail(Finding(res.rule, key + "/floor-plus-one", "%s counts units as floor(%s / %s) + 1 with no test of the remainder: for an exact multiple this is one unit too many (a sector kept with its old bytes after a shrink, or a header count that disagrees with the chain)" % (f.path.split("::")[-1], x[:50], y[:40]), f, st["span"]))
+        res.floor("floor+1 expressions", n, 0)
+        res.notes.append("expected count on the reference tree: 0; positive examples: kept seeds C08-5 (Chain::set_len) and C02-5")
+        return res
+    return run
